@@ -171,6 +171,26 @@ impl Engine for C04 {
                 }
             }
         }
+        // nameless mode: some nodes lose their target-namespace name in some states (a node that only holds its members).
+        // The diff model cannot say "present without a name", so `diff` may refuse such a pair - but whatever it
+        // returns must still apply to A and give B (missed seeded change C04-4)
+        if w.chance(12) {
+            for st in p.states.iter_mut() {
+                if !w.chance(60) {
+                    continue;
+                }
+                for c in st.classes.values_mut() {
+                    if w.chance(25) {
+                        c.names[0] = None;
+                    }
+                    for m in c.fields.values_mut().chain(c.methods.values_mut()) {
+                        if w.chance(15) {
+                            m.names[0] = None;
+                        }
+                    }
+                }
+            }
+        }
         p
     }
 
@@ -184,6 +204,32 @@ impl Engine for C04 {
         }
         sh.u64(p.delivery.len() as u64);
         st.shape = sh.0;
+
+        // ---------------- nameless pairs: only the law apply(diff(A,B),A) == B, and only when diff does not refuse
+        let nameless = |s: &MapSet| s.classes.values().any(|c| c.names.first().is_some_and(|n| n.is_none()) || c.fields.values().chain(c.methods.values()).any(|m| m.names.first().is_some_and(|n| n.is_none())));
+        if p.states.iter().any(nameless) {
+            st.tier("T0");
+            st.probe("nameless_pair");
+            for i in 1..=k {
+                let (a, b) = (&p.states[i - 1], &p.states[i]);
+                match no_panic(|| MappingsDiff::diff(&q_of(a), &q_of(b))) {
+                    Err(pm) => out.push(Violation::new("T0", "panic", format!("diff:{}", panic_path(&pm)), pm)),
+                    Ok(Err(_)) => st.probe("nameless_pair.diff_refused"),
+                    Ok(Ok(d)) => match no_panic(|| d.apply_to::<2, Ns, Ns>(q_of(a), &a.ns[1])) {
+                        Err(pm) => out.push(Violation::new("T0", "panic", format!("apply:{}", panic_path(&pm)), pm)),
+                        Ok(Err(_)) => st.probe("nameless_pair.apply_refused"),
+                        Ok(Ok(r)) => {
+                            st.probe("nameless_pair.applied");
+                            let r = from_quill(&r).expect("projects");
+                            if let Some((path, det)) = b.diff_path(&r) {
+                                out.push(Violation::new("T0", "semantic-mismatch", format!("apply(diff(A,B),A).{path}"), det));
+                            }
+                        }
+                    },
+                }
+            }
+            return out;
+        }
 
         // ---------------- T0: in-memory diff and apply for every step of the history
         st.tier("T0");
